@@ -102,6 +102,19 @@ checks['C05']['text']+=' The transport reports errors for sends that went out; a
 checks['C18']['text']+=' An ordered-committee request that fails several times before it answers (the unordered block-proof committee is handed out in another order) must not change the rotation.'
 checks['C15']['text']+=' The ctx scenario runs at heights 1..3 with late triggers of the earlier height.'
 
+
+# ---- round 8 extensions
+checks['C06']['engine']='unit+sim'; checks['C06']['note']=UNIT_NOTE+" "+SIM_NOTE
+checks['C06']['technique']+='; quorum decisions of the protocol judged in sim executions against the reference weights'
+checks['C06']['text']+=' Behavioural half: in randomized adversarial executions every COMMIT a correct node sends and every view it announces must rest on senders the reference weighs at W-f or more.'
+checks['C03']['engine']='sim+rt'; checks['C03']['note']=SIM_NOTE+" "+RT_NOTE
+checks['C03']['text']+=' Runtime half: the committed pairs of live networks validated (strict) through the API of running nodes, on the consumer\'s goroutine, under the race detector.'
+checks['C05']['engine']='sim+rt'; checks['C05']['note']=SIM_NOTE+" "+RT_NOTE
+checks['C05']['text']+=' Runtime half: election triggers must be acted upon — with a stale trigger in the worker\'s slot, when fired during the handling of the sync that started the round, and when an older view\'s validation is still waiting on its context.'
+checks['C14']['text']+=' A storm of 12-18 thousand back-to-back UpdateState calls from two callers next to junk traffic and state readers: every call returns, the newest takes effect.'
+checks['C19']['text']+=' Scripts include saturated views; an API panic is a finding; a superseded arming\'s trigger must not be readable once the superseding call has returned.'
+checks['C20']['text']+=' Proofs whose PREPAREs were signed over another view / hash than the proposal; other messages built by the same factory between a proposal\'s content and the NEW_VIEW embedding it; parsing independent of the envelope\'s history.'
+
 def cmd(pid, tier):
     return "./check %s --tier %s" % (pid, tier)
 
@@ -116,8 +129,8 @@ manifest = {
   "add_only": True,
  },
  "engines": [
-  {"name": "sim", "path": "sim/", "serves_properties": ["C01","C03","C04","C05","C07","C08","C09","C10","C11","C12","C13","C17","C18"], "kind_free_text": "deterministic single-threaded scheduler over N real WorkerLoops (verif hooks), Byzantine adversary with own keys + replay, online monitors over the SPI event log"},
-  {"name": "rt", "path": "rt/", "serves_properties": ["C02","C05","C07","C08","C11","C12","C13","C14","C15","C16","C17","C19"], "kind_free_text": "real MainLoop + WorkerLoop + timer trigger of 1..5 nodes in child processes built with -race: router with loss/dup/delay, parking SPI fakes, log-keyed delay injection, API driver, main-loop barrier and worker-iteration witness"},
+  {"name": "sim", "path": "sim/", "serves_properties": ["C01","C03","C04","C05","C06","C07","C08","C09","C10","C11","C12","C13","C17","C18"], "kind_free_text": "deterministic single-threaded scheduler over N real WorkerLoops (verif hooks), Byzantine adversary with own keys + replay, online monitors over the SPI event log"},
+  {"name": "rt", "path": "rt/", "serves_properties": ["C02","C03","C05","C07","C08","C11","C12","C13","C14","C15","C16","C17","C19"], "kind_free_text": "real MainLoop + WorkerLoop + timer trigger of 1..5 nodes in child processes built with -race: router with loss/dup/delay, parking SPI fakes, log-keyed delay injection, API driver, main-loop barrier and worker-iteration witness"},
   {"name": "unit", "path": "unit/", "serves_properties": ["C02","C06","C15","C17","C18","C19","C20"], "kind_free_text": "real function / component run on generated and enumerated inputs next to an independent reference oracle (math/big, sequential models, semantic re-parse)"},
  ],
  "checks": [],
